@@ -606,8 +606,43 @@ fn close(f: f64, r: f64) -> bool {
     (f - r).abs() <= 1e-12 * 1f64.max(f.abs()).max(r.abs())
 }
 
+/// The domain predicate of the "numbers == plain f64" flag, evaluated on the plain f64 run (the
+/// reference computation): node k is OUTSIDE the domain if it is a pole at a zero divisor -- a
+/// division (operator, div_swapped, the caller-supplied 1/x and x/y) whose divisor is +0.0 or
+/// -0.0, or a power of a zero base with a negative exponent -- or if one of its operands is
+/// outside.  +0.0 and -0.0 are the same number (Neg for Record / Trace is `0 - x`, which is +0.0
+/// at x = +0.0 where plain `-x` is -0.0); the sign of a zero is observable only through such a
+/// pole (1/+0 = +inf, 1/-0 = -inf), which the property excludes ("all input points in the
+/// functions' domains"), so numbers at and downstream of a pole are not compared.  Everything
+/// else -- NaN from ln / sqrt of a negative number, overflow to infinity, 0^0, ... -- IS compared.
+pub fn in_pole_free_domain(prog: &[Ins<f64>], plain: &[f64]) -> Vec<bool> {
+    let mut ok: Vec<bool> = Vec::with_capacity(prog.len());
+    for ins in prog {
+        let pole2 = |o: u8, x: f64, y: f64| match o {
+            3 => y == 0.0,
+            4 => x == 0.0 && y < 0.0,
+            _ => false,
+        };
+        let r = match ins {
+            Ins::Var(_) | Ins::Const(_) => true,
+            Ins::Bin(o, a, b) => ok[*a] && ok[*b] && !pole2(*o, plain[*a], plain[*b]),
+            Ins::BinC(o, a, c) => ok[*a] && !pole2(*o, plain[*a], *c),
+            Ins::CBin(o, c, b) => ok[*b] && !pole2(*o, *c, plain[*b]),
+            Ins::Un(_, a) => ok[*a],
+            Ins::Sum(l) => l.iter().all(|&a| ok[a]),
+            // user1 entry 2 is 1 / x
+            Ins::User1(g, a) => ok[*a] && !(*g == 2 && plain[*a] == 0.0),
+            // user2 entry 1 is x / y
+            Ins::User2(g, a, b) => ok[*a] && ok[*b] && !(*g == 1 && plain[*b] == 0.0),
+        };
+        ok.push(r);
+    }
+    ok
+}
+
 /// Returns the three flags (forms agree bit for bit, forward derivative == reverse derivative,
-/// numbers == the plain f64 computation) for the given seeds (positions of variable instructions).
+/// numbers == the plain f64 computation on `in_pole_free_domain`) for the given seeds (positions
+/// of variable instructions).
 /// Forward against reverse: the Record run turns every constant instruction into a variable so
 /// that EVERY local partial derivative is on the tape; if any entry of the complete reverse
 /// derivative vector is not finite (0^negative, ln of a non-positive base of a power, division by
@@ -616,12 +651,13 @@ fn close(f: f64, r: f64) -> bool {
 pub fn float_oracle(prog: &[Ins<f64>], outs: &[usize], seeds: &[usize]) -> (bool, bool, bool) {
     let (mut forms, mut fwd_rev, mut values) = (true, true, true);
     let plain = run_plain::<f64>(prog);
+    let dom = in_pole_free_domain(prog, &plain);
     // Record, ownership forms 0..=4
     let mut rec_canon: Option<Vec<(u64, bool, Vec<u64>)>> = None;
     for mode in 0..5u8 {
         let list = WengertList::<f64>::new();
         let Ok(nodes) = run_records::<f64>(&list, prog, mode) else { return (false, false, false) };
-        if !nodes.iter().zip(plain.iter()).all(|(r, p)| same_value(r.number, *p)) {
+        if !nodes.iter().zip(plain.iter()).zip(dom.iter()).all(|((r, p), d)| !*d || same_value(r.number, *p)) {
             values = false;
         }
         let obs: Vec<(u64, bool, Vec<u64>)> = outs
@@ -652,7 +688,7 @@ pub fn float_oracle(prog: &[Ins<f64>], outs: &[usize], seeds: &[usize]) -> (bool
         let mut canon: Option<Vec<(f64, f64)>> = None;
         for mode in 0..5u8 {
             let nodes = run_traces::<f64>(prog, seed, Trace::variable(*x0), mode);
-            if !nodes.iter().zip(plain.iter()).all(|(t, p)| same_value(t.number, *p)) {
+            if !nodes.iter().zip(plain.iter()).zip(dom.iter()).all(|((t, p), d)| !*d || same_value(t.number, *p)) {
                 values = false;
             }
             let obs: Vec<(f64, f64)> = outs.iter().map(|&o| (nodes[o].number, nodes[o].derivative)).collect();
